@@ -646,15 +646,19 @@ def check_file(acc, fc, *, cursors="all", accesses="all", partial=True, pairs=Tr
         n = sess.n
         acc.rich = n >= 3
         # -- iteration (state after construction, then again after a complete iteration) and attributes
+        tiling_ok = True
         for rep in range(2):
             r = sess.do(["iter_all"])
             acc.add(I_CONCAT, r["concat"], lambda: fc.cex("concat", [["iter_all"]] * (rep + 1), sess, r["concat"]),
                     nontrivial=nat > 1, sample={"file": fc.label, "atoms": nat, "residues": n})
             acc.add(I_BOUND, r["boundaries"], lambda: fc.cex("boundaries", [["iter_all"]] * (rep + 1), sess, r["boundaries"]),
                     nontrivial=n > 1 or nat > 1, sample={"file": fc.label, "residue_starts": sess.starts[:-1][:20]})
+            tiling_ok = tiling_ok and r["concat"] is None and r["boundaries"] is None
         r = sess.do(["attrs"])
         for sub, oid in (("len", A_LEN), ("n_atoms", A_NAT), ("box", A_BOX), ("title", A_TITLE)):
             acc.add(oid, r[sub], lambda sub=sub: fc.cex(sub, [["attrs"]], sess, r[sub]), sample={"file": fc.label})
+        if not tiling_ok:
+            return      # the tiling of this file is already refuted; access failures on it would only repeat that finding
         if accesses == "all":
             fam = int_family(n) + oob_family(n) + slice_family(n)
         else:
@@ -893,78 +897,90 @@ def task_shipped(tier, seed):
 
 def task_guards(tier, seed):
     """Must-fail guards: wrong clauses / corrupted observations have to be refuted on the real object."""
+    import copy
     t0 = time.time()
     out = []
     tmp = tempfile.mkdtemp(prefix="c12_")
 
-    def g(name, caught, why):
-        out.append(ob(f"{PROP}/guard/{name}", "refuted" if caught else "discharged", kind="guard", engine="smallscope",
+    def g(name, why, fn):
+        try:
+            status = "refuted" if fn() else "discharged"
+        except Exception as e:      # the code under check misbehaves so badly that the guard cannot be evaluated
+            status = "undecided"
+            why += " -- guard could not be evaluated: %s: %s" % (type(e).__name__, str(e)[:200])
+        out.append(ob(f"{PROP}/guard/{name}", status, kind="guard", engine="smallscope",
                       backend="runtime-contract", expect="refuted", secs=time.time() - t0, reason=why))
     try:
-        # file with repeated kinds, consecutive numbers
+        # file with repeated kinds, consecutive numbers, velocities, triclinic box
         seq = ("A2", "A2", "1A", "A1")
         text, recs, title, box = small_file(seq, "consecutive", True, 1)
         fc = FileCtx(tmp, text, recs, title, box, "guard")
         s = fc.session()
         E = s.E
-        lst = list(s.sg)
-        # 1 wrong oracle: residues split only where the NAME changes
-        byname = []
-        for r in recs:
-            if not byname or byname[-1][-1][1] != r[1]:
-                byname.append([])
-            byname[-1].append(r)
-        g("SystemGro.__iter__/must_fail.boundaries_only_where_name_changes", cmp_list(lst, byname) is not None,
-          "wrong clause 'a residue starts only where the name changes' on A,A,1A,A with consecutive numbers")
-        # 2 shifted index: sg[k] == E[k+1]
-        caught = all(cmp_residue(s.sg[k], E[k + 1]) is not None for k in range(len(E) - 1))
-        g("SystemGro.__getitem__/must_fail.index_shifted_by_one", caught, "wrong clause 'sg[k] is the (k+1)-th iterated residue'")
-        # 3 corrupted observation: one coordinate / one velocity / one atom number changed
-        import copy
-        bad1 = copy.deepcopy(E)
-        bad1[2][0][4][1] += 0.001
-        bad2 = copy.deepcopy(E)
-        bad2[1][1][5][2] += 0.0001
-        bad3 = [list(r) for r in E]
-        bad3[3][0] = bad3[3][0][:3] + (bad3[3][0][3] + 1,) + bad3[3][0][4:]
+
+        def g1():
+            byname = []
+            for r in recs:
+                if not byname or byname[-1][-1][1] != r[1]:
+                    byname.append([])
+                byname[-1].append(r)
+            return cmp_list(list(s.sg), byname) is not None
+        g("SystemGro.__iter__/must_fail.boundaries_only_where_name_changes",
+          "wrong clause 'a residue starts only where the name changes' on A,A,1A,A with consecutive numbers", g1)
+        g("SystemGro.__getitem__/must_fail.index_shifted_by_one", "wrong clause 'sg[k] is the (k+1)-th iterated residue'",
+          lambda: all(cmp_residue(s.sg[k], E[k + 1]) is not None for k in range(len(E) - 1)))
+
+        def g3():
+            lst = list(s.sg)
+            bad1 = copy.deepcopy(E)
+            bad1[2][0][4][1] += 0.001
+            bad2 = copy.deepcopy(E)
+            bad2[1][1][5][2] += 0.0001
+            bad3 = [list(r) for r in E]
+            bad3[3][0] = bad3[3][0][:3] + (bad3[3][0][3] + 1,) + bad3[3][0][4:]
+            return cmp_list(lst, E) is None and all(cmp_list(lst, b) is not None for b in (bad1, bad2, bad3))
         g("comparison/must_fail.corrupted_coordinate_velocity_atomid",
-          cmp_list(lst, E) is None and all(cmp_list(lst, b) is not None for b in (bad1, bad2, bad3)),
-          "the comparison accepts the true records and rejects records differing in one coordinate (0.001), one velocity (0.0001), one atom number")
-        # 4 the forced cursor is effective: reading without seeking after seek_atom(c) returns record c, not record 0
-        eff = True
-        for c in range(1, len(recs)):
-            s.do(["seek", c])
-            line = next(s.sg._open_fgro)
-            if not (line[3] == recs[c][3] and line[3] != recs[0][3]):
-                eff = False
-        g("GroFile.seek_atom/must_fail.read_after_forced_cursor_is_record_0", eff,
-          "wrong clause 'whatever the forced cursor, the next record read is record 0' (shows the forced states differ)")
-        # 5 wrong slice semantics: sg[::2] == E[1::2]
-        g("SystemGro.__getitem__/must_fail.stride_slice_offset", cmp_list(s.sg[::2], E[1::2]) is not None, "wrong clause 'sg[::2] equals iterated[1::2]'")
-        # 6 wrong attributes
-        r = s.do(["attrs"])
-        s.title = title + "x"
-        s.boxm = box_matrix_of(BOXES[0])
-        s.n += 1
-        r2 = s.do(["attrs"])
-        s.n -= 1
-        g("SystemGro.attributes/must_fail.wrong_len_box_title", all(v is None for v in r.values()) and
-          all(r2[k] is not None for k in ("len", "box", "title")), "wrong expected len / box (off-diagonal dropped) / title must be rejected")
+          "the comparison accepts the true records and rejects records differing in one coordinate (0.001), one velocity (0.0001), "
+          "one atom number", g3)
+
+        def g4():
+            eff = True
+            for c in range(1, len(recs)):
+                s.do(["seek", c])
+                line = next(s.sg._open_fgro)
+                if not (line[3] == recs[c][3] and line[3] != recs[0][3]):
+                    eff = False
+            return eff
+        g("GroFile.seek_atom/must_fail.read_after_forced_cursor_is_record_0",
+          "wrong clause 'whatever the forced cursor, the next record read is record 0' (shows that the forced states differ)", g4)
+        g("SystemGro.__getitem__/must_fail.stride_slice_offset", "wrong clause 'sg[::2] equals iterated[1::2]'",
+          lambda: cmp_list(s.sg[::2], E[1::2]) is not None)
+
+        def g6():
+            r = s.do(["attrs"])
+            s.title, s.boxm, s.n = title + "x", box_matrix_of(BOXES[0]), s.n + 1
+            try:
+                r2 = s.do(["attrs"])
+            finally:
+                s.title, s.boxm, s.n = title, box_matrix_of(box), s.n - 1
+            return all(v is None for v in r.values()) and all(r2[k] is not None for k in ("len", "box", "title"))
+        g("SystemGro.attributes/must_fail.wrong_len_box_title",
+          "wrong expected len (+1) / box (off-diagonal terms dropped) / title (one more character) must be rejected", g6)
         s.close()
-        # 7 digit-leading names: the oracle keyed on the concatenation '{number}{name}' must be refuted by the real code
-        text, recs, title, box = small_file(("1A", "A2"), "digit", False, 0)
-        fc = FileCtx(tmp, text, recs, title, box, "guard-digit")
-        s = fc.session()
-        lst = list(s.sg)
-        merged = [list(recs)]
-        keys = {"%d%s" % (r[0], r[1]) for r in recs}
+        # digit-leading names: the oracle keyed on the concatenation '{number}{name}' must be refuted by the real code
+        text2, recs2, title2, box2 = small_file(("1A", "A2"), "digit", False, 0)
+        fc2 = FileCtx(tmp, text2, recs2, title2, box2, "guard-digit")
+        s2 = fc2.session()
+
+        def g7():
+            lst = list(s2.sg)
+            keys = {"%d%s" % (r[0], r[1]) for r in recs2}
+            return len(keys) == 1 and cmp_list(lst, [list(recs2)]) is not None and cmp_list(lst, group(recs2)) is None
         g("SystemGro.__iter__/must_fail.boundaries_by_concatenated_number_name",
-          len(keys) == 1 and cmp_list(lst, merged) is not None and cmp_list(lst, group(recs)) is None,
-          "file (1,'1A'),(11,'A'): both render '11A'; the wrong oracle merging them must be refuted (scope contains the D10 trigger)")
-        # 8 out-of-range index: the wrong clause 'sg[len] returns the last residue' must be refuted
-        r = _call(s.sg.__getitem__, len(lst))
-        g("SystemGro.__getitem__/must_fail.index_len_returns_last", isinstance(r, Raised), "wrong clause 'sg[len(sg)] returns a residue'")
-        s.close()
+          "file (1,'1A'),(11,'A'): both render '11A'; the wrong oracle merging them must be refuted (the scope contains the D10 trigger)", g7)
+        g("SystemGro.__getitem__/must_fail.index_len_returns_a_residue", "wrong clause 'sg[len(sg)] returns a residue'",
+          lambda: isinstance(_call(s2.sg.__getitem__, s2.n), Raised))
+        s2.close()
         return out
     finally:
         shutil.rmtree(tmp, ignore_errors=True)
